@@ -104,7 +104,7 @@ func (s *Server) handleDNSRequest(_ *proxy.Proxy, pctx *proxy.DNSContext) error 
 		s.processFilteringBeforeRequest,
 		s.processUpstream,
 		s.processFilteringAfterResponse,
-		s.ipset.process,
+		s.processIpset,
 		s.processQueryLogsAndStats,
 	}
 	for _, process := range mods {
@@ -158,7 +158,7 @@ func (s *Server) processInitial(dctx *dnsContext) (rc resultCode) {
 
 	q := pctx.Req.Question[0]
 	qt := q.Qtype
-	if s.conf.AAAADisabled && qt == dns.TypeAAAA {
+	if qt == dns.TypeAAAA && s.aaaaDisabled() {
 		pctx.Res = s.NewMsgNODATA(pctx.Req)
 
 		return resultCodeFinish
@@ -207,6 +207,33 @@ func (s *Server) processClientIP(addr netip.Addr) {
 	s.addrProc.Process(context.TODO(), addr)
 }
 
+// aaaaDisabled returns true if the resolving of AAAA queries is disabled.  It is
+// safe for concurrent use.
+func (s *Server) aaaaDisabled() (ok bool) {
+	s.serverLock.RLock()
+	defer s.serverLock.RUnlock()
+
+	return s.conf.AAAADisabled
+}
+
+// dnssecEnabled returns true if DNSSEC is enabled.  It is safe for concurrent
+// use.
+func (s *Server) dnssecEnabled() (ok bool) {
+	s.serverLock.RLock()
+	defer s.serverLock.RUnlock()
+
+	return s.conf.EnableDNSSEC
+}
+
+// processIpset adds the resolved IP addresses to the ipsets, if any.  The lock
+// also serializes the closure of s.ipset.
+func (s *Server) processIpset(dctx *dnsContext) (rc resultCode) {
+	s.serverLock.RLock()
+	defer s.serverLock.RUnlock()
+
+	return s.ipset.process(dctx)
+}
+
 // processDDRQuery responds to Discovery of Designated Resolvers (DDR) SVCB
 // queries.  The response contains different types of encryption supported by
 // current user configuration.
@@ -215,6 +242,9 @@ func (s *Server) processClientIP(addr netip.Addr) {
 func (s *Server) processDDRQuery(dctx *dnsContext) (rc resultCode) {
 	log.Debug("dnsforward: started processing ddr")
 	defer log.Debug("dnsforward: finished processing ddr")
+
+	s.serverLock.RLock()
+	defer s.serverLock.RUnlock()
 
 	if !s.conf.HandleDDR {
 		return resultCodeSuccess
@@ -233,7 +263,8 @@ func (s *Server) processDDRQuery(dctx *dnsContext) (rc resultCode) {
 
 // makeDDRResponse creates a DDR answer based on the server configuration.  The
 // constructed SVCB resource records have the priority of 1 for each entry,
-// similar to examples provided by the [draft standard].
+// similar to examples provided by the [draft standard].  s.serverLock is
+// expected to be locked.
 //
 // TODO(a.meshkov):  Consider setting the priority values based on the protocol.
 //
@@ -352,12 +383,12 @@ func (s *Server) processDHCPHosts(dctx *dnsContext) (rc resultCode) {
 		}
 		resp.Answer = append(resp.Answer, a)
 	case dns.TypeAAAA:
-		if s.dns64Pref != (netip.Prefix{}) {
+		if mapped := s.mapDNS64(ip); mapped != nil {
 			// Respond with DNS64-mapped address for IPv4 host if DNS64 is
 			// enabled.
 			aaaa := &dns.AAAA{
 				Hdr:  s.hdr(req, dns.TypeAAAA),
-				AAAA: s.mapDNS64(ip),
+				AAAA: mapped,
 			}
 			resp.Answer = append(resp.Answer, aaaa)
 		}
@@ -520,7 +551,7 @@ func (s *Server) processUpstream(dctx *dnsContext) (rc resultCode) {
 //
 // TODO(a.garipov, e.burkov): This should probably be done in module dnsproxy.
 func (s *Server) setReqAD(req *dns.Msg) (wantsDNSSEC bool) {
-	if !s.conf.EnableDNSSEC {
+	if !s.dnssecEnabled() {
 		return false
 	}
 
@@ -552,7 +583,7 @@ func hasDO(msg *dns.Msg) (do bool) {
 // setRespAD changes the request and response based on the server settings and
 // the original request data.
 func (s *Server) setRespAD(pctx *proxy.DNSContext, reqWantsDNSSEC bool) {
-	if s.conf.EnableDNSSEC && !reqWantsDNSSEC {
+	if !reqWantsDNSSEC && s.dnssecEnabled() {
 		pctx.Req.AuthenticatedData = false
 		pctx.Res.AuthenticatedData = false
 	}
@@ -582,12 +613,20 @@ func (s *Server) dhcpHostFromRequest(q *dns.Question) (reqHost string) {
 
 // setCustomUpstream sets custom upstream settings in pctx, if necessary.
 func (s *Server) setCustomUpstream(pctx *proxy.DNSContext, clientID string) {
-	if !pctx.Addr.IsValid() || s.conf.ClientsContainer == nil {
+	if !pctx.Addr.IsValid() {
+		return
+	}
+
+	s.serverLock.RLock()
+	clients := s.conf.ClientsContainer
+	s.serverLock.RUnlock()
+
+	if clients == nil {
 		return
 	}
 
 	cliAddr := pctx.Addr.Addr()
-	upsConf := s.conf.ClientsContainer.CustomUpstreamConfig(clientID, cliAddr)
+	upsConf := clients.CustomUpstreamConfig(clientID, cliAddr)
 	if upsConf != nil {
 		log.Debug(
 			"dnsforward: using custom upstreams for client with ip %s and clientid %q",
